@@ -61,3 +61,37 @@ func XTwoServiceFiles() *spec.Spec {
 	s := &spec.Spec{Name: "x_twosvc", Files: []*spec.File{a, b}}
 	return withCell(s, "ext/unit=two_service_files", "extended", "valid", "genonly", "multifile")
 }
+
+// OASShapes: shapes that stress component naming and reachability in the OpenAPI generator.
+func OASShapes() []*spec.Spec {
+	var out []*spec.Spec
+	{
+		// same-named nested types in two parents
+		a := spec.M("Order", spec.F("id", "string"), spec.Msg("item", "Order.Item")).WithNested(spec.M("Item", spec.F("sku", "string")))
+		b := spec.M("Invoice", spec.F("id", "string"), spec.Msg("item", "Invoice.Item")).WithNested(spec.M("Item", spec.F("amount", "int64")))
+		f := &spec.File{Messages: []*spec.Message{a, b}, Services: []*spec.Service{EchoService("NestedService", "Order", "Invoice")}}
+		out = append(out, withCell(spec.One("oas_same_nested", f), "oas/unit=same_named_nested", "extended", "valid", "genonly"))
+	}
+	{
+		// recursive and mutually recursive types
+		f := &spec.File{Messages: []*spec.Message{
+			spec.M("Tree", spec.F("label", "string"), spec.Msg("children", "Tree").Rep(), spec.Msg("parent", "Tree")),
+			spec.M("Ping", spec.Msg("pong", "Pong")), spec.M("Pong", spec.Msg("ping", "Ping"), spec.Msg("by_key", "Ping").Map()),
+		}, Services: []*spec.Service{EchoService("RecService", "Tree", "Ping")}}
+		out = append(out, withCell(spec.One("oas_recursive", f), "oas/unit=recursive", "extended", "valid", "genonly"))
+	}
+	{
+		// enum values and strings that look like other YAML types
+		e := &spec.Enum{Name: "Odd", Values: []*spec.EnumValue{{Name: "ODD_UNSPECIFIED", Num: 0, Custom: spec.Str("null")}, {Name: "ODD_A", Num: 1, Custom: spec.Str("123")},
+			{Name: "ODD_B", Num: 2, Custom: spec.Str("true")}, {Name: "ODD_C", Num: 3, Custom: spec.Str("1e3")}, {Name: "ODD_D", Num: 4, Custom: spec.Str("yes")}, {Name: "ODD_E", Num: 5, Custom: spec.Str("~")}}}
+		f := &spec.File{Enums: []*spec.Enum{e}, Messages: []*spec.Message{
+			spec.M("Req", spec.En("odd", "Odd"), spec.F("name", "string").Ex("123", "true", "null", "1e3", "0x1F", "2024-01-15").R(`string:{in:["123","true","no"]}`)),
+			spec.M("Resp", spec.F("ok", "bool")),
+		}, Services: []*spec.Service{
+			spec.Svc("YamlService", "/y", spec.RPC("Do", "Req", "Resp", "POST", "/do")).H(&spec.Header{Name: "X-Num", Type: "string", Required: true, Example: "123", Description: "yes: # 'quoted'"})}}
+		f.Services[0].Comment = "Service with YAML-special characters: # ' \" {}"
+		f.Messages[0].Comment = "multi\nline: comment"
+		out = append(out, withCell(spec.One("oas_yamlish", f), "oas/unit=yaml_lookalike_strings", "extended", "valid", "genonly"))
+	}
+	return out
+}
